@@ -93,6 +93,8 @@ func (c *Ctx) scanJSON(f *ssa.Function, writer bool, d *jsonDesc, depth int, see
 				d.add("dec")
 			} else if base == 16 {
 				d.add("hex")
+			} else {
+				d.add(fmt.Sprintf("base%d", base)) // a radix no writer of this repository prints
 			}
 			d.add(fmt.Sprintf("parse-%s-%d", sg, bits))
 		case "math/big.Int.SetString":
@@ -177,6 +179,11 @@ func (c *Ctx) jsonPairs(rels ...string) {
 			for _, base := range []string{"dec", "hex", "fift", "boc-hex", "boc-b64"} {
 				if w.has(base) && !r.has(base) {
 					probs = append(probs, "the writer emits "+base+" text but the reader does not parse "+base)
+				}
+			}
+			for t := range r.tokens {
+				if strings.HasPrefix(t, "base") && !w.has(t) {
+					probs = append(probs, "the reader parses a number in "+t+", a radix the writer never prints (the writer uses decimal/hexadecimal text)")
 				}
 			}
 			// signedness and width of decimal integers for integer-kinded types
